@@ -1226,6 +1226,10 @@ func (c *Context) Exp(d, x *Decimal) (Condition, error) {
 	fc := c.WithPrecision(c.Precision)
 	fc.Rounding = RoundHalfEven
 	res |= fc.round(d, d)
+	// The result is inexact whether or not its last rounding dropped digits.
+	if res.Inexact() && res.Subnormal() {
+		res |= Underflow
+	}
 	return c.goError(res)
 }
 
